@@ -1,62 +1,39 @@
+import GmqttVerif.Model.Topic
 /-
-  Topic helpers local to the federation models (to be unified with `Model/Topic.lean`).
+  Topic helpers of the federation models: thin `String` wrappers around `Model/Topic.lean` (no second definition of matching).
 
-  * `levels`      = `strings.Split(s, "/")`
-  * `matchLevels` = what `mem.topicTrie.matchTopic` computes, read as a predicate on ONE filter:
-                    "is the trie node of this filter visited (`setRs`) when matching this topic name?"
-  * `subMatches`  = is a subscription (shareName, topicFilter) visited by
-                    `TrieDB.Iterate(fn, {Type: TypeAll, TopicName: topic, MatchType: MatchFilter})`
-                    (three tries: shared, user, system), including the code's
-                    behaviour for `topic == ""` (no topic restriction at all ⇒ every subscription; F18).
-  * `splitTopic` / `fullName` = `subscription.SplitTopic` / `GetFullTopicName`.
+  * `subMatches share filter topic` = is a subscription (shareName, topicFilter) visited by
+        `TrieDB.Iterate(fn, {Type: TypeAll, TopicName: topic, MatchType: MatchFilter})`.
+    For a non-empty topic name this is the declarative MQTT 4.7 relation `Topic.MatchesTopic` — C02 `matchTopic_exact` proves that
+    the three tries (shared, user, system) visit exactly the stored subscriptions satisfying it (valid topic names; since 71aefdf
+    also for shared subscriptions and `$`-topics).  For `topic == ""` the code applies no topic restriction at all: every
+    subscription is visited (`sendMessage` can still be reached with an empty topic through a will / the Publisher API).
+  * `sharedMatches` = the same for `Iterate(TypeShared, …)` on the local store.
+  * `splitTopic` / `fullName` = `subscription.SplitTopic` / `GetFullTopicName` (`Topic.splitTopic`, `Topic.fullName`).
 
-  Assumption (generator keeps to it): topic NAMES contain no level equal to "+" or "#".
+  Stream `fedroute` compares `Fed.route` — hence these functions — with the real `mem.TrieDB` on every run.
 -/
 namespace GmqttVerif.Fed
 
-def levels (s : String) : List String := s.splitOn "/"
-
-/-- `matchTopic` walk. At a trie node, for the remaining topic levels `t :: ts`:
-    child "#" is reported; child "+" and child `t` are followed; at the last topic level the child itself
-    and its "#" child are reported. -/
-def matchLevels : List String → List String → Bool
-  | f :: fs, t :: ts =>
-    if f == "#" && fs.isEmpty then true
-    else if f == "+" || f == t then
-      match ts with
-      | [] => fs.isEmpty || fs == ["#"]
-      | _ :: _ => matchLevels fs ts
-    else false
-  | _, _ => false
-
-/-- `isSystemTopic` -/
-def isSys (s : String) : Bool := s.startsWith "$"
-
-/-- `getMatchedTopicFilter` (since 71aefdf): for a topic name beginning with `$` only the child with exactly the topic's
-    first level is followed, so a filter whose first level is `+` or `#` does not match [MQTT-4.7.2-1] — in every trie. -/
-def trieMatches (filter topic : String) : Bool :=
-  (!isSys topic || (levels filter).head? == (levels topic).head?) && matchLevels (levels filter) (levels topic)
-
 /-- visited by `Iterate(TypeAll, TopicName = topic, MatchFilter)` -/
-def subMatches (share filter topic : String) : Bool :=
-  if topic == "" then true
-  else if share != "" then trieMatches filter topic
-  else (isSys filter == isSys topic) && trieMatches filter topic
+def subMatches (_share filter topic : String) : Bool :=
+  if topic == "" then true else Topic.MatchesTopic filter.toList topic.toList
 
 /-- visited by `Iterate(TypeShared, TopicName = topic, MatchFilter)` (shared subscriptions only) -/
-def sharedMatches (filter topic : String) : Bool :=
-  if topic == "" then true else trieMatches filter topic
+def sharedMatches (filter topic : String) : Bool := subMatches "" filter topic
+
+/-- for a non-empty topic name, matching IS the relation C01/C02 are stated with -/
+theorem subMatches_eq_MatchesTopic (share filter topic : String) (h : topic ≠ "") :
+    subMatches share filter topic = Topic.MatchesTopic filter.toList topic.toList := by
+  simp [subMatches, h]
 
 /-- `subscription.SplitTopic` -/
 def splitTopic (t : String) : String × String :=
-  if t.startsWith "$share/" then
-    match t.splitOn "/" with
-    | _ :: g :: r :: rs => (g, String.intercalate "/" (r :: rs))
-    | _ => ("", "")
-  else ("", t)
+  let r := Topic.splitTopic t.toList
+  (String.ofList r.1, String.ofList r.2)
 
 /-- `Subscription.GetFullTopicName` -/
 def fullName (share filter : String) : String :=
-  if share != "" then "$share/" ++ share ++ "/" ++ filter else filter
+  String.ofList (Topic.fullName share.toList filter.toList)
 
 end GmqttVerif.Fed
